@@ -196,9 +196,8 @@ def main():
             leg.count("cookie_owner_queries", len(sent))
             leg.count("cookie_owner_answered", okc)
             leg.cls("cookie-owner|%s" % ("all-answered" if okc == len(sent) else "dropped"))
-            if okc < len(sent):
-                leg.violation("C16/valid-cookie-not-exempt", "%d of %d queries carrying the server cookie issued to this client were answered" % (okc, len(sent)),
-                              {"engine": "c16-e2e", "phase": "cookie-owner"})
+            # (the property says when a cookie MAY exempt -- "only if" -- not that it must: a server that merely raises the
+            # allowance of a verified client, or none, is within it; counted, not judged)
             # the same cookie replayed from another address must not be exempt: its REFUSED volume stays bounded
             sent, got, _ = flood("127.0.9.31", 400 if thorough else 200, 4.0, cookie=server_cookie, qprefix="st")
             check_windows("stolen-cookie", got, "127.0.9.31")
